@@ -356,6 +356,46 @@ def r1_unordered_iteration(ctx, rep):
                         f"FortranCodeUnit.correlate, so the rendered order changes with PYTHONHASHSEED"),
                        f"ford/templates/{tname}:{f.lineno}")
 
+def output_dir_excluded_as_path(ctx, rep):
+    """exclude_dir entries are glob patterns (documented so), the output directory is a path: it must be excluded by a
+    path relation (or be escaped where it is turned into a pattern).  Otherwise an output directory whose name contains
+    a glob metacharacter (`doc[v1]`) is not excluded and the `src/` copies of a previous run are parsed as sources.
+    """
+    py = ctx.py
+    faf = py.func("fortran_project.find_all_files")
+    def is_output(e) -> bool:
+        return any(isinstance(a, ast.Attribute) and a.attr == "output_dir" for a in ast.walk(e))
+    by_path = []
+    for c in ast.walk(faf):
+        if isinstance(c, ast.Compare) and len(c.ops) == 1 and isinstance(c.ops[0], (ast.In, ast.NotIn)) and is_output(c.left) and \
+                any(isinstance(a, ast.Attribute) and a.attr == "parents" for a in ast.walk(c.comparators[0])):
+            by_path.append(c)
+        if isinstance(c, ast.Call) and isinstance(c.func, ast.Attribute) and c.func.attr in ("is_relative_to", "relative_to") and \
+                c.args and is_output(c.args[0]):
+            by_path.append(c)
+        if isinstance(c, ast.Call) and call_name(c).split(".")[-1] == "commonpath" and is_output(c):
+            by_path.append(c)
+    escaped = []
+    appends = []
+    for q in ("ProjectSettings.__post_init__", "__init__.parse_arguments"):
+        fn = py.func(q)
+        for c in py.walk_calls(fn):
+            if isinstance(c.func, ast.Attribute) and c.func.attr in ("append", "extend", "insert") and \
+                    ast.unparse(c.func.value).endswith("exclude_dir") and c.args and is_output(c.args[-1]):
+                appends.append(c)
+                if any(isinstance(k, ast.Call) and call_name(k).split(".")[-1] == "escape" for k in ast.walk(c.args[-1])):
+                    escaped.append(c)
+    if not appends and not by_path:
+        raise AnalysisError("no exclusion of the output directory from the source search found")
+    ok = bool(by_path) or (bool(appends) and len(escaped) == len(appends))
+    rep.ob("the output directory is excluded as a path, not as a glob pattern", ok,
+           "files below settings.output_dir are dropped by a path relation" if by_path else
+           ("the pattern is built with glob.escape" if ok else
+            f"`{ast.unparse(appends[0])[:70]}` turns the output directory into an fnmatch pattern: with `output_dir: ./doc[v1]` inside a "
+            f"source directory the pattern `<abs>/doc[v1]/*` never matches, the previous run's `doc[v1]/src/*.f90` copies are parsed "
+            f"as sources (stale entities documented, or SameFileError)"),
+           py.nloc(by_path[0] if by_path else appends[0]), nontrivial=not ok)
+
 
 def r2_stale_output(ctx, rep):
     """Decided on the event trace of Documentation.writeout with its own helpers (methods and module functions)
@@ -390,6 +430,8 @@ def r2_stale_output(ctx, rep):
                "is_file -> unlink, otherwise rmtree" if ok else
                f"only {'rmtree' if rm else 'unlink'} is applied to the output path: an existing {'file' if rm else 'directory'} "
                f"at that path is not removed", py.nloc(removal[0].node))
+    # what an earlier run left in the output directory is not read back as a source (shared with C19.R5)
+    output_dir_excluded_as_path(ctx, rep)
     # directory creation must fail on leftovers (no exist_ok) so that a failed removal is not masked
     for e in ev:
         if e.kind == "call" and isinstance(e.node.func, ast.Attribute) and e.node.func.attr == "mkdir":
